@@ -12,8 +12,11 @@ impl<'a> Hist<'a> {
 
     /// (active route, cached routes with expiry) of the pair's live worker at this quiescent point.
     pub fn view(&self, pair: Pair) -> Option<(Option<usize>, Vec<(usize, u32)>)> {
-        self.live_worker(pair)?;
-        let pr = self.probes.lock().unwrap().get(&pair_key(pair)).cloned()?;
+        let w = self.live_worker(pair)?;
+        let (pr, _, actor) = self.probes.lock().unwrap().get(&pair_key(pair)).cloned()?;
+        if actor != Some(w) {
+            return None;
+        }
         let active = pr.active.map(|f| format!("{f:#}")).and_then(|f| self.route_of_fp(&f));
         let cached = pr.cached.iter().filter_map(|(p, _, _)| self.route_of_fp(&fp_str(p)).map(|r| (r, p.expiration().unwrap_or(0)))).collect();
         Some((active, cached))
@@ -24,7 +27,9 @@ impl<'a> Hist<'a> {
         let mut s = 0.0;
         for p in &self.penalties {
             if p.report.concerns(&self.routes[route].hops) {
-                let dt = (now_ns.saturating_sub(p.t_ns)) as f64 / 1e9;
+                // decays from the instant the worker could process it; not yet processed = undecayed
+                let t0 = p.t_eff[self.routes[route].dst].unwrap_or(now_ns);
+                let dt = (now_ns.saturating_sub(t0)) as f64 / 1e9;
                 s += p.report.penalty() * 2f64.powf(-dt / 90.0);
             }
         }
@@ -63,11 +68,12 @@ impl<'a> Hist<'a> {
             .collect()
     }
 
-    /// Has a lookup for `pair` been outstanding continuously since (at or before) instant `t_ns`?  The worker then
-    /// cannot have processed any report delivered since.
+    /// Did the report delivered at `t_ns` arrive while a lookup of `pair`'s worker was outstanding?  The worker
+    /// does not poll the issue channel during a fetch and afterwards keeps using the clock reading taken before
+    /// it: such a report is acted on late and stamped with the lookup's start time.
     pub fn lookup_outstanding_since_before(&self, pair: Pair, t_ns: u64) -> bool {
         let st = self.fetch.lock().unwrap();
-        st.reqs.iter().any(|r| r.pair == pair && r.outcome.is_none() && !r.dropped && r.start_ns <= t_ns)
+        st.reqs.iter().any(|r| r.pair == pair && r.start_ns <= t_ns && ((r.outcome.is_none() && !r.dropped) || r.done_ns.map(|d| d >= t_ns).unwrap_or(false)))
     }
 
     pub fn op_report_drawn(&mut self) -> RunResult2 {
@@ -176,7 +182,7 @@ impl<'a> Hist<'a> {
                             tags.push_str(" [penalty below swap threshold]");
                         }
                         if self.lookup_outstanding_since_before(*pair, now_ns) {
-                            tags.push_str(" [lookup outstanding since before the report]");
+                            tags.push_str(" [report arrived during an outstanding lookup]");
                         }
                         self.violate_pub(
                             "C07/no-switch",
@@ -218,7 +224,7 @@ impl<'a> Hist<'a> {
             self.sim.probe("oracle-fresh");
             if !alts.is_empty() {
                 let rep_t = self.penalties.iter().rev().find(|p| Some(&p.report) == rep.as_ref()).map(|p| p.t_ns).unwrap_or(u64::MAX);
-                let tags = if self.lookup_outstanding_since_before(pair, rep_t) { " [lookup outstanding since before the report]" } else { "" };
+                let tags = if self.lookup_outstanding_since_before(pair, rep_t) { " [report arrived during an outstanding lookup]" } else { "" };
                 return self.violate_pub(
                     "C07/fresh-penalised-path-used",
                     format!("r{route} handed out while it carries a fresh penalty (≥{fresh:.2}, from {rep:?}) and unpenalised valid alternatives {alts:?} are cached{tags}"),
@@ -239,6 +245,7 @@ impl<'a> Hist<'a> {
         let ceiling = (self.cfg.fetch_failure_backoff.maximum_delay_secs as f64).max(self.cfg.min_refetch_delay.as_secs_f64());
         let bound_ns = ((ceiling + self.cfg.min_refetch_delay.as_secs_f64() + 2.0) * 1e9) as u64;
         self.fetch.lock().unwrap().planned.clear();
+        self.op_gc();
         let t_end = sim.now_ns() + bound_ns;
         for _ in 0..400 {
             while !self.fetch.lock().unwrap().outstanding().is_empty() {
